@@ -676,8 +676,10 @@ def scripts_phase(res, tag, scripts, categories, label):
         return
     nops = 0
     bad = []
-    for name, ops in scripts:
-        r = run_script(tag, ops, name=name)
+    from concurrent.futures import ThreadPoolExecutor
+    with ThreadPoolExecutor(max_workers=12) as ex:
+        ran = list(ex.map(lambda no: run_script(tag, no[1], name=no[0]), scripts))
+    for (name, ops), r in zip(scripts, ran):
         if r.error:
             bad.append((name, "crash", r.error, ops, None))
             continue
@@ -749,8 +751,10 @@ def run_seq_property(res, tag, categories, n_quick, n_thorough, gen_kwargs=None,
     distinct = set()
     samples = []
     known = C.known_findings(pid)
-    for name, ops in scripts:
-        r = run_script(tag, ops, name=name)
+    from concurrent.futures import ThreadPoolExecutor
+    with ThreadPoolExecutor(max_workers=12) as ex:
+        ran = list(ex.map(lambda no: run_script(tag, no[1], name=no[0]), scripts))
+    for (name, ops), r in zip(scripts, ran):
         if r.error:
             crashes.append((name, r.error, ops))
             continue
